@@ -7,7 +7,7 @@ import re
 
 from ..cfg import cfg_of
 from ..model import AnalysisError, call_name, calls_in, dotted, norm, walk_no_nested
-from .. import callgraph, rules
+from .. import callgraph, normal, rules
 from .. import conds as cnd
 
 META = {
@@ -47,7 +47,7 @@ def check_handle_stream_function(ctx):
     # callback name derivation
     g = repo.method("SecsHandler", "_generate_sf_callback_name", inherited=False)
     rets = [s for s in rules.func_stmts(g.node) if isinstance(s, ast.Return)]
-    ok = len(rets) == 1 and norm(rets[0].value) == "f's{stream:02d}f{function:02d}'"
+    ok = len(rets) == 1 and rules.text_template(rets[0].value) == [("lit", "s"), ("fmt", "stream", "02d"), ("lit", "f"), ("fmt", "function", "02d")]
     ctx.ob("C08.P1", g.qualname, ok, "callback names are s<SS>f<FF> with two digits each" if ok else f"callback name format is {norm(rets[0].value) if rets else None}: handlers named _on_sSSfFF are not found", where=g.where)
     idx = [n for n in cfg.real_nodes() if any(c == "self._generate_sf_callback_name" for c in n.call_names())]
     ctx.require(len(idx) == 1, f"{q}: callback index computation not found")
@@ -66,7 +66,8 @@ def check_handle_stream_function(ctx):
         ok2 = [norm(a) for a in uc.args] == [param]
         ctx.ob("C08.P1", q, ok2, "the unknown-function handler receives the message" if ok2 else f"`{norm(uc)}`", key="unknown-arg", where=f.where)
     # known branch
-    cb_calls = [n for n in cfg.real_nodes() if isinstance(n.ast, ast.Assign) and isinstance(n.ast.value, ast.Call) and isinstance(n.ast.value.func, ast.Name) and len(n.ast.value.args) == 2 and norm(n.ast.value.args[1]) == param]
+    cb_calls = [n for n in cfg.real_nodes() if isinstance(n.ast, ast.Assign) and isinstance(n.ast.value, ast.Call) and len(n.ast.value.args) == 2 and norm(n.ast.value.args[1]) == param
+                and (isinstance(n.ast.value.func, ast.Name) or (isinstance(n.ast.value.func, ast.Call) and call_name(n.ast.value.func) == "getattr"))]
     ctx.require(len(cb_calls) == 1, f"{q}: `result = callback(self, message)` not found")
     CB = cb_calls[0]
     cbcall = CB.ast.value
@@ -74,8 +75,8 @@ def check_handle_stream_function(ctx):
     ok = callgraph.broadly_guarded(fn, cbcall)
     ctx.ob("C08.P1", q, ok, "the callback runs inside a broad try (a failing callback is answered with an abort)" if ok else "a callback exception escapes: the primary gets no SxF0 abort", key="callback-guarded", where=f.where)
     # callback is fetched by the computed name
-    getters = [n for n in cfg.real_nodes() if isinstance(n.ast, ast.Assign) and isinstance(n.ast.value, ast.Call) and call_name(n.ast.value) == "getattr"]
-    ok = any(norm(n.ast.value.args[0]) == "self._callback_handler" and norm(n.ast.value.args[1]) == idxvar and n.ast.targets[0].id == cbcall.func.id for n in getters if len(n.ast.value.args) >= 2 and isinstance(n.ast.targets[0], ast.Name))
+    fetched = rules.expand(fn, cbcall.func)  # the callee, a local bound to the getattr or the getattr itself
+    ok = fetched == f"getattr(self._callback_handler, {idxvar})" or (idxvar is not None and fetched == f"getattr(self._callback_handler, {rules.expand(fn, ast.Name(id=idxvar, ctx=ast.Load()))})")
     ctx.ob("C08.P1", q, ok, "the callback that runs is the one registered under the computed name" if ok else "the invoked callback is not fetched from the callback handler by the computed name", key="callback-fetch", where=f.where)
     sends = [(n, c) for n in cfg.real_nodes() for c in n.calls if call_name(c) == "self.send_response"]
     handlers = [n for n in cfg.nodes if n.kind == "handler"]
@@ -111,7 +112,7 @@ def check_handle_stream_function(ctx):
     # unknown functions
     u = repo.method("SecsHandler", "_handle_unknown_functions", inherited=False)
     ctx.touch(u)
-    ucfg = cfg_of(u.node)
+    ucfg = cfg_of(normal.normalised(ctx, u))
     up = u.node.args.args[1].arg
     usends = [(n, c) for n in ucfg.real_nodes() for c in n.calls if call_name(c) == "self.send_response"]
     ok = len(usends) == 1
@@ -362,7 +363,9 @@ def check_callback_handler(ctx):
         first = None
         for n in cfg.real_nodes():
             if ga and any(c is ga[0] for c in n.calls):
-                first = sorted((re.sub(rf"\b{re.escape(p)}\b", "NAME", t), pol) for t, pol in cnd.facts(cfg, n))
+                part = n.expr_part if not isinstance(n.expr_part, list) else None
+                inner = cnd.expr_facts(part, ga[0]) if part is not None else set()
+                first = sorted((re.sub(rf"\b{re.escape(p)}\b", "NAME", t), pol) for t, pol in cnd.facts(cfg, n) | inner)
         facts[m.name] = (first, prefix, target)
     ok = facts["__contains__"] == facts["_call"] and facts["_call"][1] == "_on_" and facts["_call"][2] == "self.target" and facts["_call"][0] == [("NAME in self._callbacks", False)]
     ctx.ob("C08.C1", "CallbackHandler", ok, "membership and call use the same lookup: registered callback first, else target._on_<name>" if ok else f"__contains__ and _call look callbacks up differently: {facts}", where=cont.where)
